@@ -371,10 +371,13 @@ C07(cfg, obs) ==
           IN IF js = {} THEN {} ELSE
              LET j == Max(js) IN
              IF nst.ret[j] > Len(obs) \/ DisposedBefore(obs, K, nst.ret[j]) THEN {} ELSE
-             (IF \E c \in (bn + 1)..nst.ret[j] : ToC(obs, c, K) /\ obs[c].t = "T" THEN {}
+             \* (if the source itself completed or failed from inside that delivery, its end is what the
+             \* sink receives and there is nothing left to dispose)
+             (IF \E c \in (bn + 1)..nst.ret[j] : ToC(obs, c, K) /\ IsEndT(obs[c].t) THEN {}
               ELSE {W("C07", "late_completion", bn, K, cfg, "")})
              \cup
-             (IF \E d \in (bn + 1)..nst.ret[j] : ToC(obs, d, u) /\ IsEndT(obs[d].t) THEN {}
+             (IF (\E d \in (bn + 1)..nst.ret[j] : ToC(obs, d, u) /\ IsEndT(obs[d].t))
+                 \/ USelfEndedBefore(obs, u, nst.ret[j]) THEN {}
               ELSE {W("C07", "late_upstream_disposal", bn, u, cfg, "")})
      ELSE \* the others complete exactly when upstream does
           {W("C07", "completion_mismatch", j, K, cfg, "") :
